@@ -22,5 +22,8 @@ TD_RolesOf == [A |-> {"w"}]
 TD_DefaultRoles == {"a"}
 TD_ActionRoles == [save |-> {"w"}, query |-> {"r"}]
 TD_Whitelist == {"A"}
+TD_ValCfg == [max_size |-> 1, oldest |-> 1, valid_kinds |-> {1}, whitelist |-> {"A"}, blacklist |-> {}, require_pow |-> 0, hell_limit |-> 0, service_pk |-> "S"]
+TD_Static == {}
+TD_AllowQuery == [ids |-> <<>>, authors |-> <<>>, kinds |-> <<{3}>>, tags |-> {}, since |-> <<>>, until |-> <<>>, limit |-> <<>>]
 Traces == <<>>
 =============================================================================
